@@ -51,8 +51,8 @@ def run(ctx):
         "string literals containing a double quote, doubles without a unique short decimal form, relative "
         "references and built-in names in Lbl records",
         "xls only; no trace leg"]
-    cfgs = ctx.pick(["quick_refs", "quick_lits", "quick_ops", "quick_funcs"],
-                    ["quick_refs", "quick_lits", "thorough_ops", "thorough_funcs", "thorough_mix"])
+    cfgs = ctx.pick(["quick_refs", "quick_lits", "quick_shared", "quick_ops", "quick_funcs"],
+                    ["quick_refs", "quick_lits", "quick_shared", "thorough_ops", "thorough_funcs", "thorough_mix"])
     counts = {}
     for c in cfgs:
         r = ctx.tlc("fmla", "MC_PtgBiff8", "MC_PtgBiff8_%s.cfg" % c, workers=6, timeout=ctx.pick(300, 2400),
